@@ -9,7 +9,19 @@ Nss == e.a[6]
 Ss == SubSeq(e.a, 7, 6 + Nss)
 Nks == e.a[7 + Nss]
 Ks == SubSeq(e.a, 8 + Nss, 7 + Nss + Nks)
-Expected == Result(e.op, e.a[1], e.a[2], e.a[3], e.a[4], e.a[5], Ss, Ks)
+(* chsrc nc (size used off) x nc act n: the library's own source over a chunk list (source_from_chunks): chunk i holds the octets
+   (40 i + p + 1) % 256 at positions p (i, p 0-based); what is to be read is the unread part of every chunk from the active one
+   on, in order, empty fragments anywhere among them.  First exactly n octets are asked for, then the rest is drained. *)
+ChunkOctets(a) == LET nc == a[1]
+                      act == a[2 + 3 * nc]
+                      piece(i) == [p \in 1..(a[3 * i + 3] - a[3 * i + 4]) |-> (40 * i + a[3 * i + 4] + p) % 256]     \* chunk i (0-based): used - off octets from off
+                      RECURSIVE cat(_)
+                      cat(i) == IF i >= nc THEN <<>> ELSE piece(i) \o cat(i + 1)
+                  IN cat(act)
+ChsrcObs(a) == LET d == ChunkOctets(a)
+                   n == a[3 + 3 * a[1]]
+               IN IF n <= Len(d) THEN <<n>> \o Take(d, n) \o <<-7>> \o Drop(d, n) ELSE <<ENODATA, -7>>
+Expected == IF e.op = "chsrc" THEN ChsrcObs(e.a) ELSE Result(e.op, e.a[1], e.a[2], e.a[3], e.a[4], e.a[5], Ss, Ks)
 TNext == /\ l <= Len(TraceLog) /\ l' = l + 1
          /\ (e.op # "@" => e.o = Expected /\ e.asan = 0)
          /\ UNCHANGED <<vars, ev>>
